@@ -17,7 +17,7 @@ from ..fixtures import RecPool, to_grid
 KINDS = ["plain", "logger", "std", "buffer"]
 INVARIANTS = ["FitnessTransparent", "DemandTransparent", "OneRecordPerWrite", "NoStrayRecords", "RecordCarriesValue"]
 DUMMY = " Values = {}\n Fits = {}"
-LEVELS = [logging.DEBUG, logging.INFO, logging.WARNING]
+LEVELS = [logging.DEBUG, logging.INFO, logging.WARNING, 5, 1]  # (sub-DEBUG numeric levels are legal: a TRACE level, say)
 KNOWN = ["value", "demand", "supply", "utilisation", "allocation", "consumption", "target"]
 UNKNOWN = ["unknown1", "Value", "demand2", "targets", "dummy field", "old-demand", "target.demand", "", "supply "]
 
@@ -87,7 +87,18 @@ def execute(case):
     meta = {}
     for i in reversed(range(len(stack))):
         k = stack[i]
-        if k == "plain":
+        if k == "plain" and rnd.random() < 0.3:
+            # a Logger whose python logger is silenced (threshold above its level) is a plain,
+            # transparent decorator: no record, the write passes all the same
+            sname = "vp.c16.run%d.silent%d" % (uid, i + 1)
+            spy = logging.getLogger(sname)
+            spy.setLevel(logging.CRITICAL + 10)
+            spy.propagate = False
+            sh = Capture(sink, i + 1, [None])
+            spy.addHandler(sh)
+            cleanup.append((spy, sh))
+            target = Logger(target, name=sname, level=rnd.choice([logging.DEBUG, logging.INFO, logging.ERROR]))
+        elif k == "plain":
             target = PoolDecorator(target)
         elif k == "std":
             target = Standardiser(target)
